@@ -294,7 +294,16 @@ func genCase(t *rapid.T) tcase {
 			attrs = append(attrs, xt.A("from", e.from))
 		}
 		if rapid.Bool().Draw(t, "hasto") {
-			attrs = append(attrs, xt.A("to", "test@example.net/r"))
+			// (whom the request is addressed to makes no difference to whether it
+			// is answered: our full or bare address, our server, somebody else,
+			// something that is not an address)
+			tos := []string{"test@example.net/r", "test@example.net/r", "test@example.net", "example.net", "other@example.net/x", "conference.example.org"}
+			if !tc.useMux {
+				// (the multiplexer cannot represent a stanza whose to is not an
+				// address and ends the stream)
+				tos = append(tos, "@@")
+			}
+			attrs = append(attrs, xt.A("to", rapid.SampledFrom(tos).Draw(t, "toaddr")))
 		}
 		if rapid.IntRange(0, 5).Draw(t, "foreignAttrs") == 0 {
 			// attributes with the same local names in a foreign namespace are not
@@ -344,7 +353,7 @@ func genCase(t *rapid.T) tcase {
 		}
 		e.prog.writes = genWrites(t, e, ns)
 		if rapid.IntRange(0, 7).Draw(t, "ret") == 0 {
-			e.prog.ret = rapid.SampledFrom([]string{"plain", "stream", "wrapeof", "eof", "wrapunexpected"}).Draw(t, "retkind")
+			e.prog.ret = rapid.SampledFrom([]string{"plain", "stream", "wrapeof", "eof", "wrapunexpected", "stanza", "wrapstanza"}).Draw(t, "retkind")
 		}
 		if !tc.midWriter && rapid.IntRange(0, 5).Draw(t, "rejectedToken") == 0 {
 			e.prog.rejected = rapid.SampledFrom([]string{"comment", "procinst", "directive"}).Draw(t, "rejected")
@@ -460,6 +469,11 @@ func (r *runner) run(p prog, t xmlstream.TokenReadEncoder) error {
 		return io.EOF
 	case "wrapunexpected":
 		return fmt.Errorf("verif: short payload: %w", io.ErrUnexpectedEOF)
+	case "stanza":
+		// a stanza error as the handler's result (not written as a reply)
+		return stanza.Error{Type: stanza.Modify, Condition: stanza.BadRequest}
+	case "wrapstanza":
+		return fmt.Errorf("verif: cannot handle this: %w", stanza.Error{Type: stanza.Cancel, Condition: stanza.FeatureNotImplemented})
 	}
 	return nil
 }
